@@ -116,7 +116,9 @@ PROPS = {
                     "twice, named+named or positional+named; required parameter missing; positional after named); well-formed calls record the "
                     "positional order with defaults filled in, every recorded order is complete; no input panics."),
         level_note=("Exhaustive bounded execution, not a proof; StaticsContext reduced to the four fields the code touches. The translator's "
-                    "emission order is not covered; surplus positional arguments are silently dropped (excluded from the domain, reported in DESIGN.md)."),
+                    "emission order is not covered; surplus positional arguments are silently dropped (excluded from the domain, reported in DESIGN.md). "
+                    "If the two functions or FuncArgDetails can no longer be sliced (data structure changed), the unit falls back to a bounded stand-in "
+                    "on the real CLI (`C18.cli.named_args.sampled`: 154 well-formed + 78 misuse call shapes, free functions and struct constructors)."),
         technique="exhaustive bounded execution of the sliced real function with type-substituted arguments",
         scope="named/default argument ordering leaf",
         assumptions=[],
